@@ -188,7 +188,21 @@ ElemTemplate::startElement(StylesheetExecutionContext&  executionContext) const
 {
     ParentType::startElement(executionContext);
 
-    executionContext.pushCurrentTemplate(this);
+    // xsl:call-template does not change the current template rule
+    // (XSLT 1.0, section 5.6), so xsl:apply-imports in a named template
+    // still refers to the rule that was matched.
+    const ElemTemplateElement* const    theInvoker =
+        executionContext.getInvoker();
+
+    if (theInvoker != 0 &&
+        theInvoker->getXSLToken() == StylesheetConstructionContext::ELEMNAME_CALL_TEMPLATE)
+    {
+        executionContext.pushCurrentTemplate(executionContext.getCurrentTemplate());
+    }
+    else
+    {
+        executionContext.pushCurrentTemplate(this);
+    }
 
     return beginExecuteChildren(executionContext);
 }
